@@ -21,3 +21,37 @@ func IDs() []string {
 	sort.Strings(ids)
 	return ids
 }
+
+// importRules evaluates the rule set of property `from` in a fork and re-emits, under rule name `as`, every obligation
+// selected by keep. Obligations that are recorded known findings of the source property are not imported (they are
+// reported by their own check). Used where one property's argument rests on facts another property decides.
+func importRules(c *core.Ctx, from, as string, keep func(o core.Obligation) bool) int {
+	def, ok := registry[from]
+	if !ok {
+		c.Broken(as, "import:"+from, "rule set not registered")
+		return 0
+	}
+	return importRulesFn(c, from, as, def.Run, keep)
+}
+
+// importRulesFn is importRules with an explicit rule function (a subset of the source property's rule set).
+func importRulesFn(c *core.Ctx, from, as string, run func(*core.Ctx), keep func(o core.Obligation) bool) int {
+	known := core.KnownIDs(c.Root, from)
+	sub := c.Fork()
+	run(sub)
+	n := 0
+	for _, o := range sub.Obligations() {
+		if keep != nil && !keep(o) {
+			continue
+		}
+		if known[o.ID()] {
+			continue
+		}
+		o.Key = o.Rule + ":" + o.Key
+		o.Rule = as
+		c.Emit(o)
+		n++
+	}
+	c.Count("imported_from_"+from, n)
+	return n
+}
